@@ -158,6 +158,7 @@ class Controller:
         self.mon_trace = []            # C41: ('msg', command, aux?, engine state, live subscriptions, monitors of open runs) / ('state', new, live, monitors)
         # (the scenario's option when the check passes it on; a counter-example may end before the first decision of a pre-plan)
         self.suspend_plans = any(str(lab).startswith("pre") for lab, _ in self.decisions) or str((opts or {}).get("suspend_plans", "False")) == "True"
+        self.c40 = []                  # C40: documents, state changes, messages and returns of blocking calls in the order they happened
 
     NONREPLAYABLE = ("pause", "subscribe", "unsubscribe", "stage", "unstage", "monitor", "unmonitor", "open_run", "close_run",
                      "install_suspender", "remove_suspender", "_start_suspender")
@@ -201,6 +202,7 @@ class Controller:
         return live, held
 
     def on_msg(self, msg):
+        self.c40.append(("msg", msg.command, msg.args[2] if msg.command == "_start_suspender" and len(msg.args) > 2 else None))
         self.mon_trace.append(("msg", msg.command, id(msg) in self.aux_msgs, str(self.RE.state)) + self.monitors())
         if self.after_start_suspender:
             # the message right after _start_suspender: the handler has run, every moved device must have been told to stop
@@ -233,6 +235,7 @@ class Controller:
 
     def on_state(self, new, old):
         new = str(new)
+        self.c40.append(("state", new, str(old)))
         self.trace.append(("state", new))
         self.mon_trace.append(("state", new) + self.monitors())
         if new == "paused":
@@ -773,12 +776,14 @@ def install_shim(ctl):
     bre.threading = shim
 
 
-def run_native(decisions, msgs, opts=None):
+def run_native(decisions, msgs, opts=None, re_attrs=None, suspend_plans=None):
     del LEDGER[:]
     del _SIG.cbs[:]
     del _SIG_B.cbs[:]
     """-> dict(calls=[(name, outcome, state after, ...)], docs=[...], diverged=..., log=[...])"""
     ctl = Controller(decisions, msgs, opts)
+    if suspend_plans is not None:
+        ctl.suspend_plans = bool(suspend_plans)     # (given by the scenario; otherwise inferred from the decision labels)
     _CTL["ctl"] = ctl
     install_shim(ctl)
     ctl.main_thread = threading.Thread(target=ctl.main, daemon=True)
@@ -793,7 +798,12 @@ def run_native(decisions, msgs, opts=None):
         RE = RunEngine({}, loop=ctl.loop, context_managers=[], during_task=DuringTask())
         RE.register_command("custom", ctl.custom)
         RE.register_command("custom_async", ctl.custom_async)
-        RE.subscribe(lambda name, doc: docs.append((name, dict(doc), ctl.trace[-1][:2] == ("msg", "close_run") if ctl.trace else False)))
+        def collect(name, doc):          # (one subscription only: the C06 oracle counts the dispatcher's tokens)
+            docs.append((name, dict(doc), ctl.trace[-1][:2] == ("msg", "close_run") if ctl.trace else False))
+            ctl.c40.append(("doc", name, dict(doc)))
+        RE.subscribe(collect)
+        for k_, v_ in (re_attrs or {}).items():
+            setattr(RE, k_, v_)               # public configuration attributes of the scenario (e.g. record_interruptions)
         RE.msg_hook = ctl.on_msg
         RE.state_hook = ctl.on_state
         if "'record_interruptions': True" in str((opts or {}).get("re_attrs", "")):
@@ -807,6 +817,7 @@ def run_native(decisions, msgs, opts=None):
     RE = ctl.RE
 
     def record(name, r):
+        ctl.c40.append(("returned", name))
         open_runs = [k for k, b in RE._run_bundlers.items() if b.run_is_open]
         out["calls"].append({"call": name, "outcome": r[0], "exc": r[1] if r[0] == "raise" else None, "value": r[1] if r[0] == "ok" else None,
                              "state": str(RE.state), "resumable": RE._msg_cache is not None, "open_runs": len(open_runs), "plan": ctl.plan_done,
@@ -864,6 +875,8 @@ def run_native(decisions, msgs, opts=None):
     out["c11_stop_bad"] = ctl.c11_stop_bad
     out["mon_trace"] = ctl.mon_trace
     out["record_interruptions"] = bool(getattr(RE, "record_interruptions", False))
+    out["c40"] = ctl.c40
+    out["re_attrs"] = dict(re_attrs or {})
     out["log"] = ctl.log
     out["plan_exc"] = getattr(ctl, "plan_exc", None)
     out["loop_errors"] = [str(c.get("exception")) for c in ctl.loop.errors]
@@ -1150,6 +1163,8 @@ def _violations(obligation, res):
         for c in res["calls"]:
             if c["call"] in ("__call__", "resume") and c.get("doomed") and not (c["state"] == "idle" and c["open_runs"] == 0):
                 bad.append(f"{c['call']} ended with state {c['state']!r} and {c['open_runs']} open runs after a {c['doomed']} in a non-resumable section")
+    elif tag.startswith(C40_TAGS):
+        bad.extend(_c40_violations(tag, res))
     elif tag.startswith("raises[the interruption is reported: RunEngineInterrupted"):
         for c in res["calls"]:
             if c["call"] in ("__call__", "resume") and c.get("doomed") and c["state"] == "idle" and not (
@@ -1158,10 +1173,77 @@ def _violations(obligation, res):
     return bad
 
 
+C40_TAGS = ("ensures[every pause, resume and suspension that happens while a run is open is recorded",
+            "ensures[a run holds no interruption record that no pause, resume or suspension accounts for",
+            "ensures[a run records interruptions iff the engine's record_interruptions is set")
+
+
+def _c40_violations(tag, res):
+    """C40: the clause of replay/c40_clause.py over the documents of the real RunBundler (the events of each run's 'interruptions' stream),
+    the state changes (state_hook) and the messages (msg_hook) of the native run, in the order they happened; in addition - it is the same
+    statement, and here the real bundler is in the loop - each record carries the stream's next seq_num and the RunStop counts the
+    interruptions that happened while the run was open."""
+    from .c40_clause import EXTRA, MISSING, Ledger
+    want = MISSING if tag.startswith(C40_TAGS[0]) else EXTRA if tag.startswith(C40_TAGS[1]) else "flag"
+    recording = bool((res.get("re_attrs") or {}).get("record_interruptions"))
+    led, found, flag = Ledger(), [], []
+    streams, nrec, nhap, runs = {}, {}, {}, []
+    for tok in res.get("c40", []):
+        if tok[0] == "doc":
+            name, doc = tok[1], tok[2]
+            if name == "start":
+                runs.append(doc["uid"])
+                nrec[doc["uid"]], nhap[doc["uid"]] = 0, 0
+                if recording:
+                    led.open(doc["uid"])
+            elif name == "descriptor" and doc.get("name") == "interruptions":
+                streams[doc["uid"]] = doc["run_start"]
+                if not recording:
+                    flag.append(f"run {runs.index(doc['run_start']) + 1} has an 'interruptions' stream although record_interruptions is off")
+            elif name == "event" and doc.get("descriptor") in streams:
+                run = streams[doc["descriptor"]]
+                nrec[run] += 1
+                if recording:
+                    found += led.record(run, str(doc["data"].get("interruption")))
+                    if doc.get("seq_num") != nrec[run]:
+                        found.append((EXTRA if doc.get("seq_num", 0) < nrec[run] else MISSING, run, doc["data"].get("interruption"),
+                                      f"record number {nrec[run]} of the stream carries seq_num {doc.get('seq_num')}"))
+            elif name == "stop":
+                run = doc.get("run_start")
+                if recording and run in led.bal:
+                    found += led.close(run)
+                    n = (doc.get("num_events") or {}).get("interruptions", 0)
+                    if n != nhap.get(run):
+                        found.append((EXTRA if n > nhap[run] else MISSING, run, "RunStop",
+                                      f"num_events['interruptions'] == {n}, but {nhap[run]} interruption(s) happened while the run was open"))
+                    if run not in streams.values():
+                        flag.append(f"run {runs.index(run) + 1} has no 'interruptions' stream although record_interruptions is on")
+        elif tok[0] == "state":
+            new, old = tok[1], tok[2]
+            what = "pause" if new == "pausing" else "resume" if (old, new) == ("paused", "running") else None
+            if what:
+                for r in led.bal:
+                    nhap[r] += 1
+                found += led.effect(what)
+            elif new == "paused":
+                found += led.progress("reached 'paused'")
+        elif tok[0] == "msg":
+            found += led.progress(f"executes the next message ({tok[1]})")
+            if tok[1] == "_start_suspender":
+                for r in led.bal:
+                    nhap[r] += 1
+                found += led.effect("suspended" if tok[2] is None else str(tok[2]))
+        elif tok[0] == "returned":
+            found += led.returned(tok[1])
+    if want == "flag":
+        return flag
+    return [f"run {runs.index(b[1]) + 1 if b[1] in runs else b[1]}: {b[2]!r}: {b[3]}" for b in found if b[0] == want]
+
+
 def replay(model, info, art):
     decisions = art.get("decisions") or []
     msgs = (info.get("scenario") or {}).get("msgs") or list(MESSAGES)
-    res = run_native(decisions, msgs, (info.get("scenario") or {}).get("opts"))
+    res = run_native(decisions, msgs, (info.get("scenario") or {}).get("opts"), re_attrs=info.get("re_attrs"), suspend_plans=info.get("suspend_plans"))
     res["failed_pause"] = any(x[0] == "plan-throw" and x[2] == "FailedPause" for x in res["log"])
     obligation = art.get("obligation", "")
     if obligation.startswith("known-"):
